@@ -53,11 +53,12 @@ def is_exact(spec):
 
 
 def tscale_expr(spec, dump):
-    """per-deme time scales: computed by the model for Kingman/Dirac/unscaled Beta, taken from the
-    implementation (and checked separately by C14) for the scaled Beta model"""
+    """per-deme time scales: computed by the model for Kingman/Dirac/unscaled Beta; for the scaled Beta model (real
+    powers) the documented formula evaluated independently of the implementation"""
     m = spec.get('model') or {'kind': 'kingman'}
     if m['kind'] == 'beta' and m.get('scale_time', True):
-        return C.coqlist([C.qlit(x) for x in dump['tscale']])
+        # documented msprime scaling, computed independently of the implementation (mpmath) from the sizes in force
+        return C.coqlist([C.qlit(C.beta_timescale(m['alpha'], x)) for x in dump['sizes']])
     mc = model_coq(m)
     return '(map (timescale OpsQ (fun N a => 0) (' + mc + ' : cmodel (T:=Q))) ' + C.coqlist([C.qlit(x) for x in dump['sizes']]) + ')'
 
